@@ -6,7 +6,7 @@ import json, subprocess
 CLAIMED = {
  # id: (category, text, note, technique, design_ref)
  "C12": ("model_checking",
-   "Exhaustive enumeration of the envelope lattice (all singles, ordered pairs and triples over {0..3}^2 plus the empty envelope, every XY argument class) against an interval-arithmetic reference model, and of geometry envelopes over every structural shape S(d,w) x 4 coordinate types x suppliers, every simple 3x3 lattice polygon/path under 6 affine maps, and Union envelopes over all operand pairs; every method named in the property is compared on every case.",
+   "Exhaustive enumeration of the envelope lattice (all singles, ordered pairs and triples over {0..3}^2 plus the empty envelope, every XY argument class) against an interval-arithmetic reference model, and of geometry envelopes over every structural shape S(d,w) x 4 coordinate types x suppliers, every simple 3x3 lattice polygon/path under 6 affine maps, and Union envelopes over all operand pairs; every method named in the property is compared on every case. NewEnvelope over every sequence of 0..4 (thorough 0..5) points of the 3x3 lattice against min/max and against the fold of ExpandToIncludeXY.",
    "Reference model: 60 lines of interval arithmetic in checks/c12.go; coordinates outside the enumerated alphabets (lattice, float classes) are not covered.",
    "bounded-exhaustive input enumeration of the real code against an interval-arithmetic reference model", "4/C12"),
  "C11": ("model_checking",
@@ -26,7 +26,7 @@ CLAIMED = {
    "Trust: exact/ + oracle/pair.go. Edge and vertex cells are compared with tolerance 1e-9 x magnitude (the library rounds crossing points); face probes exactly. Members above ~9 vertices and sub-tolerance near-degenerate inputs are outside the bound (the latter by the property).",
    "bounded-exhaustive input enumeration on the real code against an exact-arithmetic arrangement oracle", "4/C01"),
  "C09": ("model_checking",
-   "Every pair of the lattice operand alphabet over all 28 type pairs (incl. collections with overlapping members, empties, holes family, many-part geometries under 32 translations so the internal R-tree has several levels, exact and general-position affine images) is run through Intersects (both orders), Disjoint, Intersection emptiness and Distance (both orders) and compared with exact rational geometry: intersection from the exact joint arrangement, distance as the square root of the exact minimum squared feature distance, envelope lower bound, symmetry, and the triangle-like inequality on every triple of a reduced alphabet.",
+   "Every pair of the lattice operand alphabet over all 28 type pairs (incl. collections with overlapping members, empties, holes family, many-part geometries under 32 translations so the internal R-tree has several levels, exact and general-position affine images) is run through Intersects (both orders), Disjoint, Intersection emptiness and Distance (both orders) and compared with exact rational geometry: intersection from the exact joint arrangement, distance as the square root of the exact minimum squared feature distance, envelope lower bound, symmetry, and the triangle-like inequality on every triple of a reduced alphabet. The holes family includes MultiPolygons whose holed member is first, last or in the middle with the hole unoccupied, so that what lies strictly inside a hole is nearest to the hole ring.",
    "Trust: exact/ + oracle/pair.go + checks/c09.go:exactDist2. Distance tolerance 1e-14 x max(magnitude, distance). General-position images are kept only when the exact arrangement clearance is >= 2e-6 x magnitude.",
    "bounded-exhaustive input enumeration on the real code against exact rational geometry", "4/C09"),
  "C04": ("model_checking",
@@ -42,11 +42,11 @@ CLAIMED = {
    "Trust: encoding/json, refcodec/node.go, the loss model geojsonExpect in checks/c06.go. Foreign members named like reserved members (type, geometry, id, properties) are not foreign members and are excluded; non-finite ordinates are outside JSON.",
    "bounded-exhaustive enumeration of shapes and of grammar-derived documents on the real code against a reference loss model", "4/C06"),
  "C07": ("model_checking",
-   "Valid geometries: every structural shape S(d,w) x 4 coordinate types x 9 ordinate frames (k/10^q on grids, on rounding ties, in between, negative, large) x XY precisions (incl. out-of-range -9 and 8) x Z/M precision pairs (incl. out-of-range) x every subset of {size, bbox, close rings} x ID lists (exact, one too many, one too few, on types without members): UnmarshalTWKB(MarshalTWKB(...)) compared with the original under exact rational rounding (each ordinate must be the float nearest to m/10^p with |m - x*10^p| <= 1/2), tolerated losses predicted exactly; size / bbox / ID headers read by an independent varint-level reader and compared with the decoded geometry and with UnmarshalTWKBSize / Envelope / IDList.",
+   "Valid geometries: every structural shape S(d,w) x 4 coordinate types x 9 ordinate frames (k/10^q on grids, on rounding ties, in between, negative, large) x XY precisions (incl. out-of-range -9 and 8) x Z/M precision pairs (incl. out-of-range) x every subset of {size, bbox, close rings} x ID lists (exact, one too many, one too few, on types without members): UnmarshalTWKB(MarshalTWKB(...)) compared with the original under exact rational rounding (each ordinate must be the float nearest to m/10^p with |m - x*10^p| <= 1/2), tolerated losses predicted exactly; size / bbox / ID headers read by an independent varint-level reader and compared with the decoded geometry and with UnmarshalTWKBSize / Envelope / IDList. Varint boundaries: every scaled delta in -300..300 (thorough -20000..20000) and within 2 of +-2^6, 2^13, 2^20, 2^27, 2^34, 2^41 as first value, step up and step down in X, Y, Z and M of Point/LineString/Polygon/MultiPoint/collection.",
    "Trust: refcodec/twkb.go (independent reader), math/big rationals. Cases where rounding makes the geometry invalid are outside 'admissible precisions' and only counted; |x*10^p| >= 2^50 is outside the domain.",
    "bounded-exhaustive enumeration of shapes x configurations on the real code against exact rational rounding and an independent reference reader", "4/C07"),
  "C08": ("fault_enumeration",
-   "A corpus of valid encodings (WKB little/big endian, TWKB with header subsets and ID lists, WKT, GeoJSON, Feature, FeatureCollection of ~90 geometries over 7 types x 4 coordinate types x empty/1/2 members/nested) is put through every fault operator the property lists - every truncation, every single-byte substitution (all 256 values at order/type/count/header positions, boundary values elsewhere), every 4-byte count overwritten with 0, 1, 2^31-1, 2^31, 2^32-1 (and 2^24, 2^16, 1000) in both byte orders, varints 2^k / 2^64-1 / over-long spliced at every position, every token deleted / duplicated / replaced by each vocabulary token, every prefix - plus grammar-generated GeoJSON collections and every byte string of length <= 2 and every string of length 3..6 (thorough 8) over {00,01,02,07,10,ff}. Each case runs in a sacrificial process (RLIMIT_AS 4 GiB) through every entry point of its format: the four Unmarshal functions, the three TWKB header readers, Scan on 9 types, UnmarshalJSON on 10. Oracle: no panic, no process death, bytes allocated by the library call <= 1 MiB + 512 x len(input), returned geometries pass Validate (and the definitional oracle inside C03's domain) and re-encode in every format without panicking.",
+   "A corpus of valid encodings (WKB little/big endian, TWKB with header subsets and ID lists, WKT, GeoJSON, Feature, FeatureCollection of ~90 geometries over 7 types x 4 coordinate types x empty/1/2 members/nested) is put through every fault operator the property lists - every truncation, every single-byte substitution (all 256 values at order/type/count/header positions, boundary values elsewhere), every 4-byte count overwritten with 0, 1, 2^31-1, 2^31, 2^32-1 (and 2^24, 2^16, 1000) in both byte orders, varints 2^k / 2^64-1 / over-long spliced at every position, every token deleted / duplicated / replaced by each vocabulary token, every prefix - plus grammar-generated GeoJSON collections and every byte string of length <= 2 and every string of length 3..6 (thorough 8) over {00,01,02,07,10,ff}. Each case runs in a sacrificial process (RLIMIT_AS 4 GiB) through every entry point of its format: the four Unmarshal functions, the three TWKB header readers, Scan on 9 types, UnmarshalJSON on 10. Oracle: no panic, no process death, bytes allocated by the library call <= 1 MiB + 512 x len(input), returned geometries pass Validate (and the definitional oracle inside C03's domain) and re-encode in every format without panicking. GeoJSON coordinates that are any nesting of [] and null (depth 3, thorough 4; width 2) for every type, alone, in a collection and next to a member with a position.",
    "Coverage-guided mutation named in the quantifier is sampling (a different family) and is not done; inputs are at most ~2 KiB, length matters only through count fields, which are overwritten with every boundary value. Trust: the supervisor/worker harness in checks/c08.go.",
    "exhaustive enumeration of fault operators over a corpus, each case executed on the real decoders in a sacrificial process", "4/C08"),
  "C13": ("model_checking",
@@ -54,11 +54,11 @@ CLAIMED = {
    "Trust: checks/c13.go:refHull (int64 gift wrapping) and exact rationals for the rectangle minima. Rectangle comparisons use tolerance 1e-9 x magnitude.",
    "bounded-exhaustive enumeration of point sets and orders on the real code against an independent exact hull", "4/C13"),
  "C14": ("model_checking",
-   "Every valid geometry of a lattice universe (the full 3x3 operand alphabet incl. all 975 simple polygons, polygons with 1..3 holes on 6x6 under every shell/hole start and direction, every <=4-vertex line with repeated points, Multi* with empty members, mixed-dimension and nested collections under every member rotation, the holes family) and its exact and general-position affine images: Area, SignedArea, Length and Centroid are compared with exact rational shoelace areas and first moments and 200-bit square-root sums (tolerance 1e-9 relative to the magnitude, squared for area), and 20 relations are checked on each (Reverse negates signed area, ForceCW/CCW, Z/M, member order, additivity over members, translation invariance/equivariance, WithTransform = TransformXY for 5 maps).",
+   "Every valid geometry of a lattice universe (the full 3x3 operand alphabet incl. all 975 simple polygons, polygons with 1..3 holes on 6x6 under every shell/hole start and direction, every <=4-vertex line with repeated points, Multi* with empty members, mixed-dimension and nested collections under every member rotation, the holes family) and its exact and general-position affine images: Area, SignedArea, Length and Centroid are compared with exact rational shoelace areas and first moments and 200-bit square-root sums (tolerance 1e-9 relative to the magnitude, squared for area), and 20 relations are checked on each (Reverse negates signed area, ForceCW/CCW, Z/M, member order, additivity over members, translation invariance/equivariance, WithTransform = TransformXY for 5 maps). Every ordered collection of 1..3 members drawn from a 19-member pool (plain, empty, Multi* with EMPTY members at the front/middle/back, nested collections in every dimension); thorough: all 381 539 simple polygons of <=8 vertices on 4x4 and all 152 422 of <=5 vertices on 5x5, the <=5-vertex ones also as the hole of a frame.",
    "Trust: checks/c14.go:exactMeasures on exact/ rationals and math/big floats.",
    "bounded-exhaustive input enumeration on the real code against exact rational measures", "4/C14"),
  "C15": ("model_checking",
-   "Every valid geometry of a lattice universe (full 3x3 operand alphabet, holes family, star family of MultiLineStrings sharing end points 2/3/4 ways in every member order, every simple <=7-gon of 3x3 under 8 anisotropic scalings, combs with 2..4 teeth and polygons with 2..3 holes in a row for every combination of tooth/notch/hole/gap widths in {1,2,3} and 4 orientations, closed / self-touching / self-crossing lines, collections with empty members) and affine images: Boundary() is compared cell by cell (every vertex, edge and face of the exact arrangement) with the DE-9IM boundary, and checked for dimension, emptiness of its own boundary, polygon type rule and the collection rule; PointOnSurface is located exactly (strictly interior of an areal member, on the highest-dimension part otherwise, empty iff empty, XY); Dimension/IsEmpty against the structure.",
+   "Every valid geometry of a lattice universe (full 3x3 operand alphabet, holes family, star family of MultiLineStrings sharing end points 2/3/4 ways in every member order, every simple <=7-gon of 3x3 under 8 anisotropic scalings, combs with 2..4 teeth and polygons with 2..3 holes in a row for every combination of tooth/notch/hole/gap widths in {1,2,3} and 4 orientations, closed / self-touching / self-crossing lines, collections with empty members) and affine images: Boundary() is compared cell by cell (every vertex, edge and face of the exact arrangement) with the DE-9IM boundary, and checked for dimension, emptiness of its own boundary, polygon type rule and the collection rule; PointOnSurface is located exactly (strictly interior of an areal member, on the highest-dimension part otherwise, empty iff empty, XY); Dimension/IsEmpty against the structure. Thorough: all 381 539 simple polygons of <=8 vertices on 4x4 and all 152 422 of <=5 vertices on 5x5 under index-dependent stretches, the <=5-vertex ones also as the hole of a frame.",
    "Trust: exact/ Locate and arrangement. Boundary keeping Z/M is not claimed by the property and not checked (the library documents Force2D there).",
    "bounded-exhaustive input enumeration on the real code against the exact interior/boundary model", "4/C15"),
  "C16": ("model_checking",
@@ -66,7 +66,7 @@ CLAIMED = {
    "Trust: refcodec/node.go walker and forceNode in checks/c16.go. The operation list is explicit (the one in the property), not discovered by reflection.",
    "bounded-exhaustive enumeration of shapes x coordinate types x operations on the real code against a structural reference", "4/C16"),
  "C17": ("model_checking",
-   "Valid lineal and areal lattice geometries (every vertex sequence of length <=4 on 3x3 with >=2 distinct points incl. repeated consecutive vertices, closed rings, simple polygons, polygons with holes and mixed ring windings, multis and collections, Z/M tagged and float-image variants) x parameters enumerated from the property: Densify distances relative to the diameter; Simplify thresholds 0, every vertex-to-chord distance and its two ulp neighbours, the diameter; InterpolatePoint fractions -1, 0, 1, 2, +-Inf, k/8 and every cumulative-length breakpoint +-1 ulp; InterpolateEvenlySpacedPoints counts -1..50; SnapToGrid places -320..320 x 14 ordinates x sign; Reverse, ForceCW, ForceCCW. Each contract clause is checked with exact rationals / 200-bit floats (originals kept in order with payload, inserted points on segments, gaps, dropped vertices within t of the bracketing line, valid-or-error, finite interpolation at the exact arc position, oddness, half-step bound, finiteness and idempotence of snapping, involution, point-set and validity preservation, IsCW/IsCCW and idempotence).",
+   "Valid lineal and areal lattice geometries (every vertex sequence of length <=4 on 3x3 with >=2 distinct points incl. repeated consecutive vertices, closed rings, simple polygons, polygons with holes and mixed ring windings, multis and collections, Z/M tagged and float-image variants) x parameters enumerated from the property: Densify distances relative to the diameter; Simplify thresholds 0, every vertex-to-chord distance and its two ulp neighbours, the diameter; InterpolatePoint fractions -1, 0, 1, 2, +-Inf, k/8 and every cumulative-length breakpoint +-1 ulp; InterpolateEvenlySpacedPoints counts -1..50; SnapToGrid places -320..320 x 14 ordinates x sign; Reverse, ForceCW, ForceCCW. Each contract clause is checked with exact rationals / 200-bit floats (originals kept in order with payload, inserted points on segments, gaps, dropped vertices within t of the bracketing line, valid-or-error, finite interpolation at the exact arc position, oddness, half-step bound, finiteness and idempotence of snapping, involution, point-set and validity preservation, IsCW/IsCCW and idempotence). Simplify: an input line or ring absent from the result must be able to collapse at the threshold (polygons with 2..4 holes of four sizes in every order x 10 thresholds between the sizes); ForceCW/ForceCCW: exact signed area of every ring of the result, also on two exact float images whose features are 1e-8 of their distance from the origin.",
    "Trust: exact/ and math/big. Tolerances: 1e-11 x magnitude for interpolated positions, 64 ulp of the magnitude for densify gaps.",
    "bounded-exhaustive enumeration of inputs x parameters on the real code against exact-arithmetic contract oracles", "4/C17"),
  "C18": ("model_checking",
@@ -82,7 +82,7 @@ CLAIMED = {
    "Variadic option parameters are exercised with no options here (each option has its own property). Pointer-receiver decoders (Scan, UnmarshalJSON) are C08's subject.",
    "bounded-exhaustive enumeration of callees x argument tuples on the real code, differential (with / without empty member, zero value vs empty collection) and against neutral-answer tables", "4/C20"),
  "C10": ("model_checking",
-   "Three exhaustive sub-checks over one op table (32 unary ops x 27 operands covering every degeneracy class, 17 binary ops x all ordered pairs, 4 search ops x 6 bulk-loaded trees). (1) Purity: operands, intermediate results of every depth-2 chain, collections built from results, and geometries sharing one backing array through NewSequence / Sequence.Slice are re-observed (WKB + accessor walk) after every call; every call is made twice and must return identical output. (2) Determinism under every map iteration order: a source-to-source pass (go/ast + go/types, applied with go build -overlay, /repo untouched) turns every range over a map in geom (22 sites) into a choice point and every map insertion (43 sites) into an insertion-order note; a deviation-bounded DFS explorer (default order, then every rotation / reversal / adjacent transposition at every choice point: bound 1 quick, bound 2 thorough, plus 4 global policies) re-runs the overlay-backed operations and requires the output (WKB / matrix / error) to equal the default run's; replaying the default schedule twice and every replayed prefix must meet identical choice points (uncaptured nondeterminism is a hard error). (3) Schedules: a static pass re-establishes on the current tree that geom, rtree and carto contain no go statement, channel operation, sync / atomic import or package-variable write outside init, so goroutines have no synchronisation edges and all interleavings are equivalent to the sequential runs; the same op bodies then run free under the race detector with 2, 4 and 16 goroutines on shared operands and trees.",
+   "Three exhaustive sub-checks over one op table (32 unary ops x 27 operands covering every degeneracy class, 17 binary ops x all ordered pairs, 4 search ops x 6 bulk-loaded trees). (1) Purity: operands, intermediate results of every depth-2 chain, collections built from results, and geometries sharing one backing array through NewSequence / Sequence.Slice are re-observed (WKB + accessor walk) after every call; every call is made twice and must return identical output. (2) Determinism under every map iteration order: a source-to-source pass (go/ast + go/types, applied with go build -overlay, /repo untouched) turns every range over a map in geom (22 sites) into a choice point and every map insertion (43 sites) into an insertion-order note; a deviation-bounded DFS explorer (default order, then every rotation / reversal / adjacent transposition at every choice point: bound 1 quick, bound 2 thorough, plus 4 global policies) re-runs the overlay-backed operations and requires the output (WKB / matrix / error) to equal the default run's; replaying the default schedule twice and every replayed prefix must meet identical choice points (uncaptured nondeterminism is a hard error). (3) Schedules: a static pass re-establishes on the current tree that geom, rtree and carto contain no go statement, channel operation, sync / atomic import or package-variable write outside init, so goroutines have no synchronisation edges and all interleavings are equivalent to the sequential runs; the same op bodies then run free under the race detector with 2, 4 and 16 goroutines on shared operands and trees. Construction and decoding are operations too: the same items bulk-loaded again (18 layout families x 10 sizes x 3 repetitions with other loads in between) give the same complete visit sequences; every operand's WKB (little, big, mixed endian; UnmarshalWKB and Scan), TWKB and GeoJSON buffer decoded twice gives the same value and leaves the buffer as it was; every unary operation agrees on an operand and on its decoded copy.",
    "A controlled thread scheduler would have zero scheduling points here (no synchronisation in the code); race-freedom therefore rests on the static pass + purity enumeration + one free-running -race execution per width (trusted base: Go race detector). Another process differs only in hash seed, i.e. map order, which (2) covers. The explorer menu is rotations / reversal / adjacent transpositions, not all n! orders.",
    "stateless exploration of environment choices (map iteration order) on the real code with a deviation-bounded DFS, plus exhaustive purity enumeration and a static no-synchronisation argument for schedules", "4/C10"),
 }
